@@ -1,7 +1,7 @@
 #!/bin/bash
 # usage: tools/confirm_seed.sh <id> <crate> <demo file name>  — confirms a seeded change in its scratch worktree
 set -u
-id="$1"; crate="$2"; demo="$3"; wt=/tmp/seed/$id
+id="$1"; crate="$2"; demo="$3"; wt=${SEEDROOT:-/tmp/seed}/$id
 export CARGO_NET_OFFLINE=true CARGO_TARGET_DIR=$wt/target
 cd $wt || exit 2
 git checkout -q --detach main 2>/dev/null; git checkout -q -- . ; rm -rf crates/$crate/tests
